@@ -2,6 +2,7 @@ package main
 
 import (
 	"fmt"
+	"hash/fnv"
 	"strings"
 
 	"harness/sx"
@@ -120,6 +121,27 @@ func genC17(ctx *Ctx) {
 		}
 	}
 	rec(nil, depth)
+	// clear and rebuild: k registrations, Clear, k registrations again (other ranges, other references)
+	hi := []int64{0xFF, 0x100, 0x101, 0x2000, 0xFFFE}
+	for k := 1; k <= 3; k++ {
+		for rep := 0; rep < 6; rep++ {
+			var ops []sx.SX
+			for round := 0; round < 2; round++ {
+				for x := 0; x < k; x++ {
+					a, b := hi[ctx.Rnd.Intn(len(hi))], hi[ctx.Rnd.Intn(len(hi))]
+					if a > b {
+						a, b = b, a
+					}
+					ops = append(ops, sx.L(sx.I(0), sx.I(a), sx.I(b), sx.I(int64(ctx.Rnd.Intn(4)))))
+				}
+				if round == 0 {
+					ops = append(ops, sx.L(sx.I(2)))
+				}
+			}
+			ctx.Count("clear-and-rebuild")
+			ctx.Input(sx.L(sx.List(ops), probes), true)
+		}
+	}
 	// random histories, endpoints near the boundaries, including panicking ones (start > end, ranges above U+FFFE)
 	ends := []int64{0, 1, 'a', 'z', 0xFE, 0xFF, 0x100, 0x101, 0x1FFF, 0x2000, 0x2001, 0xFFFD, 0xFFFE, 0xFFFF}
 	for i := 0; i < ctx.N; i++ {
@@ -261,6 +283,70 @@ func runC17(in sx.SX) (obs sx.SX, fail string) {
 				}
 			}
 		}()
+	}
+	// one character looked up again and again while the map is reconfigured: for each probe, the history is replayed with
+	// lookups of that probe alone (twice in a row) under several schedules - after every step; only right before each
+	// Clear and at the end; after the steps selected by two masks derived from the input - so that whatever the map
+	// remembers from its last lookup meets every kind of reconfiguration in between
+	if fail == "" {
+		ops := sx.AsList(l[0])
+		hh := fnv.New32a()
+		hh.Write([]byte(sx.Text(in)))
+		seedMask := hh.Sum32()
+		for pi, p := range sx.AsList(l[1]) {
+			c := sx.AsInt(p)
+			for sched := 0; sched < 4; sched++ {
+				m3 := utilities.NewCharReferenceMap()
+				var h3 []reg
+				func() {
+					defer func() { recover() }()
+					m3.Lookup(rune(c))
+					for step, o := range ops {
+						oo := sx.AsList(o)
+						switch sx.AsInt(oo[0]) {
+						case 0:
+							a, b, r := sx.AsInt(oo[1]), sx.AsInt(oo[2]), sx.AsInt(oo[3])
+							m3.AddInterval(rune(a), rune(b), c17refs[r])
+							if b >= 0xffff {
+								b = 0xfffe
+							}
+							h3 = append(h3, reg{a, b, r})
+						case 1:
+							r := sx.AsInt(oo[1])
+							m3.AddDefaultInterval(c17refs[r])
+							h3 = append(h3, reg{0, 0xfffe, r})
+						default:
+							m3.Clear()
+							h3 = nil
+						}
+						look := true
+						switch sched {
+						case 1:
+							look = step == len(ops)-1 || sx.AsInt(sx.AsList(ops[step+1])[0]) == 2
+						case 2, 3:
+							look = step == len(ops)-1 || (seedMask>>(uint(step+pi+sched*7)%31))&1 == 1
+						}
+						if !look {
+							continue
+						}
+						want := int64(0)
+						if c >= 0 && c <= 0xfffe {
+							for i := len(h3) - 1; i >= 0; i-- {
+								if h3[i].a <= c && c <= h3[i].b {
+									want = h3[i].ref
+									break
+								}
+							}
+						}
+						for rep := 0; rep < 2; rep++ {
+							if got := m3.Lookup(rune(c)); got != c17refs[want] && fail == "" {
+								fail = fmt.Sprintf("with Lookup(%#x) as the only lookup (schedule %d): after step %d it returned %v, the most recent covering registration carries %v", c, sched, step, got, c17refs[want])
+							}
+						}
+					}
+				}()
+			}
+		}
 	}
 	// "a tokenizer hands every character of a configured range to the configured state, and disabling a range really
 	// disables it": the same history replayed on the word and whitespace states (reference = enabled, nil = disabled)
